@@ -1873,7 +1873,7 @@ example : EmptyLine (lexFrom toyCharSpec 17 "-- c\n".toList) := by
     ingredients / cookware items / timers of its steps may be spelled WITH block comments and blank
     whitespace tokens inserted behind a blank of their name, alias, note or unit (`DocItemF`, `SegF`,
     `CompFiller`, `TimerFiller`; `docCleanF` forgets the filler; any number of components and steps may
-    carry filler).  Hypotheses on the transformed source are the token-level ones only: its blocks have
+    carry filler; `hclean` compares the blocks up to the blank padding of section / `>>` lines).  Hypotheses on the transformed source are the token-level ones only: its blocks have
     the block shape, its components are followed as the grammar demands (`DocItemF.OK`), separators
     are separators, the list is spelled as the lexer spells it, and it has no front-matter fence.
     Statement: both sources parse to a recipe, and the recipes are the same in the sense of the
@@ -1885,31 +1885,37 @@ example : EmptyLine (lexFrom toyCharSpec 17 "-- c\n".toList) := by
 theorem C17_filler_in_component_bodies_same_recipe {α : Type} [Arith α] (ws : Char → Bool) (env : Env)
     (hsp : env.cs.uws ' ' = true) (pre' pre : List Tok) (docF : List (DocItemF × List Tok))
     (doc : List (DocItem × List Tok)) (h : DocWF α env pre doc)
-    (hclean : (docCleanF docF).map (·.1) = doc.map (·.1))
+    (hclean : ((docCleanF docF).map (·.1)).map DocItem.core = (doc.map (·.1)).map DocItem.core)
     (hpre' : blankLinesOK pre' = true) (hok : ∀ d ∈ docF, d.1.OK env.cs env.ext)
     (hseps : sepsOK (docF.map (·.2)) = true) (hw : WellSpelled env.cs (pre' ++ docSpecF docF))
     (hfm : parseFrontmatter env.cs (render (pre' ++ docSpecF docF)) = none) :
     SameRecipe ws (parseRecipe (α := α) env (render (pre' ++ docSpecF docF)))
       (parseRecipe (α := α) env (render (pre ++ docSpec doc))) := by
-  have hmem : ∀ d ∈ docCleanF docF, ∃ d0 ∈ doc, d0.1 = d.1 := by
-    intro d hd
-    have : d.1 ∈ (docCleanF docF).map (·.1) := List.mem_map_of_mem hd
-    rw [hclean] at this
-    obtain ⟨d0, hd0, e⟩ := List.mem_map.1 this
-    exact ⟨d0, hd0, e⟩
-  have hF : DocWFF α env pre' docF :=
-    ⟨hpre', hok,
-     fun d hd => by obtain ⟨d0, hd0, e⟩ := hmem d hd; rw [← e]; exact h.ok d0 hd0,
-     fun d hd => by obtain ⟨d0, hd0, e⟩ := hmem d hd; rw [← e]; exact h.simple d0 hd0,
-     fun d hd => by obtain ⟨d0, hd0, e⟩ := hmem d hd; rw [← e]; exact h.plain d0 hd0,
-     fun d hd => by obtain ⟨d0, hd0, e⟩ := hmem d hd; rw [← e]; exact h.ext d0 hd0,
-     hseps, hw, hfm⟩
+  have hF : DocWFF α env pre' docF := DocWFF.of_clean env pre' pre docF doc h hclean hpre' hok hseps hw hfm
   obtain ⟨c', c, e', e, hs, hi, hc, ht, hm, hq, hf, hv, hd⟩ := bl17_docF_same (α := α) env hsp pre' pre docF doc hF h hclean
   rw [e', e]
   refine ⟨?_, hd⟩
   show SameCol ws c' c
   exact ⟨by rw [hs]; exact LRel.refl_of (LooseSection.refl ws) _, hi, hc, ht, hq, hm,
     by rw [hf]; exact OptRel.refl_of (A := A17FmSame) (fun _ => rfl) _, hv⟩
+
+/-- **Trailing line comment on a section line or a `>>` line: the same recipe** (recipe level,
+    well-formed recipes).  It is the theorem above: a block of `docF` may also be a section line or a
+    `>>` line of the grammar with a line-comment token behind it (`DocItemF.sectionLC`, `.metaLC`: `= name
+    -- c`, `= name = -- c`, `>> key: value -- c`; the blanks in front of the comment are the padding of the
+    line, and `hclean` compares blocks up to that padding, `DocItem.core`).  The comment ends the name
+    run / follows the closing `=`s / ends the value run; there it shows nothing, and the name is read
+    through `text_trimmed`, the value through the outer `trim`. -/
+theorem C17_trailing_comment_on_single_line_blocks_same_recipe {α : Type} [Arith α] (ws : Char → Bool) (env : Env)
+    (hsp : env.cs.uws ' ' = true) (pre' pre : List Tok) (docF : List (DocItemF × List Tok))
+    (doc : List (DocItem × List Tok)) (h : DocWF α env pre doc)
+    (hclean : ((docCleanF docF).map (·.1)).map DocItem.core = (doc.map (·.1)).map DocItem.core)
+    (hpre' : blankLinesOK pre' = true) (hok : ∀ d ∈ docF, d.1.OK env.cs env.ext)
+    (hseps : sepsOK (docF.map (·.2)) = true) (hw : WellSpelled env.cs (pre' ++ docSpecF docF))
+    (hfm : parseFrontmatter env.cs (render (pre' ++ docSpecF docF)) = none) :
+    SameRecipe ws (parseRecipe (α := α) env (render (pre' ++ docSpecF docF)))
+      (parseRecipe (α := α) env (render (pre ++ docSpec doc))) :=
+  C17_filler_in_component_bodies_same_recipe ws env hsp pre' pre docF doc h hclean hpre' hok hseps hw hfm
 
 /-! non-vacuity: `Add @olive [- c -] oil{1%big [- c -] cup}(very [- c -] fine) now⏎` against
     `Add @olive oil{1%big cup}(very fine) now⏎` -/
@@ -1979,6 +1985,66 @@ example : SameRecipe (α := Rat) (fun c => c = ' ')
         (by intro t ht; simp only [List.mem_cons, List.not_mem_nil, or_false] at ht; rcases ht with rfl | rfl <;> rfl)
         (by intro t ht; simp only [List.mem_cons, List.not_mem_nil, or_false] at ht; rcases ht with rfl | rfl <;> decide)
         (Or.inl rfl) (by intro s hs; cases hs)))
+
+/-! non-vacuity: `= sec -- c⏎⏎>> k: v -- c⏎⏎Mix well⏎` against `= sec⏎⏎>> k: v⏎⏎Mix well⏎` -/
+def C17_exDocLC : List (DocItemF × List Tok) :=
+  [(.sectionLC (some [tk .word "sec".toList]) { n0 := 0, a := [tk .ws [' ']], b := [tk .ws [' ']] } (tk .lineComment "-- c".toList),
+      [tk .newline ['\n'], tk .newline ['\n']]),
+   (.metaLC [tk .word "k".toList] [tk .word "v".toList] { a := [tk .ws [' ']], c := [tk .ws [' ']], d := [tk .ws [' ']] }
+      (tk .lineComment "-- c".toList), [tk .newline ['\n'], tk .newline ['\n']]),
+   (.other (.step [.text [tk .word "Mix".toList, tk .ws [' '], tk .word "well".toList]]), [tk .newline ['\n']])]
+def C17_exDocLCClean : List (DocItem × List Tok) :=
+  [(.sectionLine (some [tk .word "sec".toList]) { n0 := 0, a := [tk .ws [' ']] }, [tk .newline ['\n'], tk .newline ['\n']]),
+   (.metaLine [tk .word "k".toList] [tk .word "v".toList] { a := [tk .ws [' ']], c := [tk .ws [' ']] },
+      [tk .newline ['\n'], tk .newline ['\n']]),
+   (.step [.text [tk .word "Mix".toList, tk .ws [' '], tk .word "well".toList]], [tk .newline ['\n']])]
+
+example : render ([] ++ docSpecF C17_exDocLC) = "= sec -- c\n\n>> k: v -- c\n\nMix well\n".toList ∧
+    render ([] ++ docSpec C17_exDocLCClean) = "= sec\n\n>> k: v\n\nMix well\n".toList := by decide
+
+theorem C17_exDocLCClean_wf : DocWF Rat C17_toyEnv [] C17_exDocLCClean := by
+  have h1 : (∀ d ∈ C17_exDocLCClean, d.1.ok C17_toyEnv.cs C17_toyEnv.ext = true) ∧ (∀ d ∈ C17_exDocLCClean, d.1.simple = true) ∧
+      sepsOK (C17_exDocLCClean.map (·.2)) = true ∧ WellSpelled C17_toyEnv.cs ([] ++ docSpec C17_exDocLCClean) ∧
+      (parseFrontmatter C17_toyEnv.cs (render ([] ++ docSpec C17_exDocLCClean))).isNone = true := by decide
+  obtain ⟨a, b, c, d, e⟩ := h1
+  refine ⟨by decide, a, b, ?_, ?_, c, d, by simpa using e⟩
+  · intro x hx
+    simp only [C17_exDocLCClean, List.mem_cons, List.not_mem_nil, or_false] at hx
+    rcases hx with rfl | rfl | rfl
+    · trivial
+    · refine ⟨?_, ?_⟩
+      · intro hh; exact absurd hh.1 (by decide)
+      · intro sk hsk
+        have : StdKey.ofStr (String.ofList (leafText [tk .word "k".toList])) = none := by decide
+        rw [this] at hsk; cases hsk
+    · trivial
+  · intro x hx
+    simp only [C17_exDocLCClean, List.mem_cons, List.not_mem_nil, or_false] at hx
+    rcases hx with rfl | rfl | rfl
+    · trivial
+    · trivial
+    · intro sg hsg
+      simp only [List.mem_cons, List.not_mem_nil, or_false] at hsg
+      subst hsg
+      intro hh; exact absurd hh (by decide)
+
+example : SameRecipe (α := Rat) (fun c => c = ' ')
+    (parseRecipe C17_toyEnv (render ([] ++ docSpecF C17_exDocLC)))
+    (parseRecipe C17_toyEnv (render ([] ++ docSpec C17_exDocLCClean))) :=
+  C17_trailing_comment_on_single_line_blocks_same_recipe _ C17_toyEnv (by decide) [] [] C17_exDocLC C17_exDocLCClean
+    C17_exDocLCClean_wf rfl (by decide)
+    (by
+      intro d hd
+      simp only [C17_exDocLC, List.mem_cons, List.not_mem_nil, or_false] at hd
+      rcases hd with rfl | rfl | rfl
+      · exact ⟨by decide, rfl⟩
+      · exact ⟨by decide, rfl⟩
+      · show DocItem.ok _ _ _ = true
+        decide)
+    (by decide) (by decide)
+    (by
+      have : (parseFrontmatter C17_toyEnv.cs (render ([] ++ docSpecF C17_exDocLC))).isNone = true := by decide
+      simpa using this)
 -- ===== end w5c17body =====
 
 end Cook
